@@ -89,7 +89,7 @@ class Ctx:
         self.log("built maindrv.test in %.1fs" % (time.time() - t))
         return out
 
-    def run_driver(self, binary, test, outdir, extra=None, timeout=1800, race_reports=None):
+    def run_driver(self, binary, test, outdir, extra=None, timeout=1800, race_reports=None, crash_reports=None):
         """Runs one driver test function of the harness binary; a failing or dead driver
         is an infrastructure error (the driver itself never judges)."""
         env = self.env({"VERIF_OUT": outdir, "GORACE": "halt_on_error=0"})
@@ -109,6 +109,20 @@ class Ctx:
             race_reports.append(txt[i:i + 3500])
             self.log("driver %s: %d data race report(s)" % (test, races))
             return r.stdout
+        txt = r.stdout + r.stderr
+        if r.returncode != 0 and "\npanic: " in "\n" + txt and crash_reports is not None:
+            # the driver process died of a Go panic: if the panicking goroutine was running code of the repository under
+            # test (a frame under REPO before any frame of the harness), that is an observation about the code, not a dead driver
+            i = txt.find("panic: ")
+            stack = txt[i:i + 4000]
+            first_goroutine = stack.split("\n\n")[0] + "\n" + (stack.split("\n\n")[1] if "\n\n" in stack else "")
+            frames = [ln.strip() for ln in first_goroutine.splitlines() if ln.startswith("\t")]
+            own = next((k for k, f in enumerate(frames) if f.startswith(REPO + "/") and "verif_driver_test.go" not in f), None)
+            harness = next((k for k, f in enumerate(frames) if "harness-src" in f), None)
+            if own is not None and (harness is None or own < harness):
+                crash_reports.append(stack)
+                self.log("driver %s: the code under test panicked" % test)
+                return r.stdout
         if r.returncode != 0 or ("--- PASS: " + test) not in r.stdout:
             raise Infra("driver %s failed (exit %d):\n%s\n%s" % (test, r.returncode, r.stdout[-3000:], r.stderr[-3000:]))
         self.log("driver %s ran in %.1fs" % (test, time.time() - t))
